@@ -38,7 +38,7 @@ ASSUMPTIONS = [
 ]
 MIN_NONTRIVIAL = {'quick': 3000, 'thorough': 60000}
 REQUIRED_MONITORS = ['roundtrip', 'unknown-name', 'wait_to_parse',
-                     'channel:bulk',
+                     'channel:bulk', 'channel:layout-over-copy_all',
                      'unknown-name:config-attribute', 'channel:A=B', 'channel:A=C',
                      'channel:split', 'channel:cross',
                      'channel:K', 'channel:M', 'tract:A=B', 'tract:A=C',
@@ -478,6 +478,41 @@ def run_bulk(rng, ctx, pytrs):
                     dedup=f"{label}|{b}|{val}")
 
 
+def run_layout_over_copy_all(rng, ctx, pytrs):
+    """The layout keyword of parse() wins over a layout in the config; the
+    other settings of that config (here `segment`) apply to the layout
+    actually used."""
+    lay = rng.choice(['TRS_desc', 'desc_STR', 'TR_desc_S', 'S_desc_TR'])
+    if rng.random() < 0.5:
+        base = G.gen_case(rng, layout=lay, max_groups=3, max_secs=2)
+        text = base['text']
+    else:
+        # two parts in different layouts: here segmenting changes the result
+        a = G.gen_case(rng, layout='TRS_desc', max_groups=1, max_secs=2)
+        b = G.gen_case(rng, layout='desc_STR', max_groups=1, max_secs=2)
+        text = rng.choice([a['text'] + '\n' + b['text'],
+                           b['text'] + '\n' + a['text']])
+    own = rng.choice(['copy_all,segment', 'segment,copy_all',
+                      'layout.copy_all,segment.True'])
+    case = {'kind': 'layout-over-copy_all', 'text': text, 'layout': lay,
+            'config': own}
+    ctx.case(['layout-over-copy_all', text, own], True,
+             shape=f"layout-over-copy_all|{lay}",
+             sample={'text': short(text, 140), 'config': own, 'keyword': lay})
+    ctx.hit('channel:layout-over-copy_all')
+    with ctx.guard(case):
+        d = pytrs.PLSSDesc(text, config=own, wait_to_parse=True)
+        got = [(t.trs, t.desc) for t in d.parse(layout=lay)]
+        ref = pytrs.PLSSDesc(text, config=f"{lay},segment")
+        want = [(t.trs, t.desc) for t in ref.tracts]
+        if got != want:
+            ctx.violation(
+                'cross-setting-precedence:PLSSDesc', case,
+                f"PLSSDesc(config={own!r}).parse(layout={lay!r}) -> "
+                f"{short(repr(got), 200)}; config '{lay},segment' gives "
+                f"{short(repr(want), 200)}", dedup='layout-over-copy_all')
+
+
 # -- round trip ---------------------------------------------------------------
 
 ATTRS16 = ('default_ns', 'default_ew', 'layout', 'wait_to_parse', 'parse_qq',
@@ -680,6 +715,8 @@ def run_shard(shard, ctx):
                 run_cross(rng, ctx, log, pytrs)
             if i % 25 == 0:
                 run_bulk(rng, ctx, pytrs)
+            if i % 25 == 7:
+                run_layout_over_copy_all(rng, ctx, pytrs)
         return
     if fam == 'single-random':
         for _ in range(shard['n']):
@@ -704,6 +741,16 @@ def replay(case, ctx):
     pytrs, log = _setup(ctx)
     if case['kind'] == 'wait':
         run_wait(ctx, pytrs)
+    elif case['kind'] == 'layout-over-copy_all':
+        d = pytrs.PLSSDesc(case['text'], config=case['config'],
+                           wait_to_parse=True)
+        got = [(t.trs, t.desc) for t in d.parse(layout=case['layout'])]
+        ref = pytrs.PLSSDesc(case['text'], config=f"{case['layout']},segment")
+        ctx.case(['layout-over-copy_all', case['text']], True)
+        ctx.hit('channel:layout-over-copy_all')
+        if got != [(t.trs, t.desc) for t in ref.tracts]:
+            ctx.violation('cross-setting-precedence:PLSSDesc', case,
+                          f"{got} vs {[(t.trs, t.desc) for t in ref.tracts]}")
     elif case['kind'] == 'bulk':
         rng = ctx.rng('roundtrip', 0)
         for _ in range(60):
